@@ -119,4 +119,39 @@ Inv_Accepted == (vPc = "done" /\ vErrs = 0) => vDelivered = [j \in 1..Len(vInput
 MaxFan == CHOOSE n \in 0..64 : (\A f \in States : Len(Table[f]) <= n) /\ (\E f \in States : Len(Table[f]) = n)
 WorkPerLine == MaxFan + 2 * 4
 Inv_Linear == vOps <= WorkPerLine * vNext
+
+(***************************************************************************)
+(* Action properties (what a single step of the parser may and may not do).*)
+(* They are checked on every explored transition ([][A]_lvars).            *)
+(***************************************************************************)
+PrefixOf(a, b) == Len(a) <= Len(b) /\ SubSeq(b, 1, Len(a)) = a
+\* C18: what has been handed to the builder / reported is never taken back, and grows by the token in hand only, one at a time
+ActP_AppendOnly == /\ PrefixOf(vDelivered, vDelivered') /\ PrefixOf(vReported, vReported')
+                   /\ Len(vDelivered') + Len(vReported') <= Len(vDelivered) + Len(vReported) + 1
+                   /\ (Len(vDelivered') > Len(vDelivered) => vDelivered' = Append(vDelivered, vTok))
+                   /\ (Len(vReported') > Len(vReported) => vReported' = Append(vReported, vTok))
+\* C18 / C01: the scanner never rewinds and never skips; only ReadToken and LaRead consume from it, one line per step
+ActP_ScannerForward == /\ vNext' \in {vNext, vNext + 1}
+                       /\ (vNext' = vNext + 1 => vPc \in {"read", "la"} /\ vQueue = <<>>)
+                       /\ vInput' = vInput
+\* C18: while a look-ahead runs nothing reaches the builder, no error is reported and the position stands still;
+\*      the lines it read go back to the queue in the order read
+ActP_LookAheadPure == (vPc = "la" /\ vPc' = "la") => /\ UNCHANGED <<vSt, vStack, vErrs, vDelivered, vReported, vTok, vTry>>
+                                                      /\ PrefixOf(vLa.read, vLa'.read)
+ActP_Requeue == (vPc = "la" /\ vPc' # "la") => vQueue' = vQueue \o vLa.read
+\* C14: an error leaves the parser where it was (position, stack, queue), so the following lines are judged from the same position
+ActP_ErrorStays == (vErrs' # vErrs) => /\ vErrs' = vErrs + 1 /\ UNCHANGED <<vSt, vStack, vQueue, vNext, vDelivered>>
+                                       /\ vReported' = Append(vReported, vTok)
+\* C02: position and stack change only when a token is delivered
+ActP_MoveOnlyOnDelivery == (vSt' # vSt \/ vStack' # vStack) => Len(vDelivered') = Len(vDelivered) + 1
+\* C01: "done" is final and is entered only on the end-of-file token
+ActP_DoneFinal == /\ (vPc = "done" => vPc' = "done")
+                  /\ (vPc # "done" /\ vPc' = "done" => vInput[vTok] = "#EOF")
+Prop_AppendOnly == [][ActP_AppendOnly]_lvars
+Prop_ScannerForward == [][ActP_ScannerForward]_lvars
+Prop_LookAheadPure == [][ActP_LookAheadPure]_lvars
+Prop_Requeue == [][ActP_Requeue]_lvars
+Prop_ErrorStays == [][ActP_ErrorStays]_lvars
+Prop_MoveOnlyOnDelivery == [][ActP_MoveOnlyOnDelivery]_lvars
+Prop_DoneFinal == [][ActP_DoneFinal]_lvars
 =============================================================================
